@@ -236,11 +236,18 @@ func limiterMain(s *simrt.Sim, info *harness.RunInfo) {
 	if useNext {
 		cfg.Next = func(c fiber.Ctx) bool { return c.Get("X-Skip") == "1" }
 	}
+	// external storages refuse the empty key (nothing is stored), so it is used with the built-in memory only
+	emptyKey := storageKind == 0 && s.Chance(300)
 	customReject := s.Chance(250)
 	if customReject {
 		// the application's own answer to a rejected request (still a 429; Retry-After comes from the middleware)
+		rejectWithError := s.Chance(500)
 		cfg.LimitReached = func(c fiber.Ctx) error {
 			simrt.Yield(203)
+			if rejectWithError {
+				// left to the application's error handler
+				return fiber.NewError(fiber.StatusTooManyRequests, "slow down")
+			}
 			return c.Status(fiber.StatusTooManyRequests).JSON(fiber.Map{"error": "slow down"})
 		}
 	}
@@ -261,8 +268,8 @@ func limiterMain(s *simrt.Sim, info *harness.RunInfo) {
 		cfg.Storage = keyGuard
 	}
 	sname := [...]string{"memory", "sim-copy", "sim-alias", "storage-memory"}[storageKind]
-	cfgLine := fmt.Sprintf("sliding=%v max=%d E=%d dynMax=%v keys=%d next=%v skipFailed=%v skipOK=%v storage=%s clients=%d preempt=%d customReject=%v",
-		sliding, cfgMax, E, dynMax, nkeys, useNext, skipFailed, skipOK, sname, nclients, preempt, customReject)
+	cfgLine := fmt.Sprintf("sliding=%v max=%d E=%d dynMax=%v keys=%d next=%v skipFailed=%v skipOK=%v storage=%s clients=%d preempt=%d customReject=%v emptyKey=%v",
+		sliding, cfgMax, E, dynMax, nkeys, useNext, skipFailed, skipOK, sname, nclients, preempt, customReject, emptyKey)
 	s.Logf("cfg %s", cfgLine)
 
 	var ops []*limOp
@@ -292,6 +299,9 @@ func limiterMain(s *simrt.Sim, info *harness.RunInfo) {
 		n := s.Range(1, harness.Scale(8, 12))
 		for j := 0; j < n; j++ {
 			op := &limOp{id: len(ops), client: ci, key: "k" + strconv.Itoa(s.Draw(nkeys)), max: cfgMax, wantStatus: 200}
+			if emptyKey && op.key == "k0" {
+				op.key = "" // a KeyGenerator that finds nothing to key on: all such clients share one bucket
+			}
 			if dynMax {
 				op.max = s.Range(0, 4)
 			}
